@@ -5,6 +5,7 @@ package main
 
 import (
 	"fmt"
+	"go/ast"
 	"go/constant"
 	"go/token"
 	"go/types"
@@ -180,6 +181,73 @@ func runC10(c *Ctx, r *Report) {
 				strings.Join(problems, "; "))
 		}
 	}
+	// R-C10.4: Fetch always runs the queue (supplied entries are fetched whatever the limit)
+	r.Doc("R-C10.4", "Fetcher.Fetch reaches processQueue on every path (the supplied starting entries are fetched for every limit, including 0)")
+	r.Doc("R-C10.5", "fromEntry trims to at least the number of supplied entries")
+	r.Doc("R-C10.6", "the fetch admission state (clock window, task cache) is only touched under the process mutex — the kept set does not depend on worker interleaving through torn updates")
+	fetch := p.Func("entry", "Fetcher", "Fetch")
+	ff := &Flow{P: p, Fn: fetch, Entry: Facts{}}
+	ff.Node = func(n ast.Node, f Facts) {
+		walkNoLit(n, func(nd ast.Node) bool {
+			if call, ok := nd.(*ast.CallExpr); ok {
+				if cf := p.Callee(fetch, call); cf != nil && cf.Name() == "processQueue" {
+					f["fetched"] = true
+				}
+			}
+			return true
+		})
+	}
+	ff.Run()
+	ff.Exits(func(_ *cfgBlk, ret *ast.ReturnStmt, at Facts) {
+		pos := fetch.Body.Rbrace
+		ok := at["fetched"]
+		if ret != nil {
+			pos = ret.Pos()
+			walkNoLit(ret, func(nd ast.Node) bool {
+				if call, isCall := nd.(*ast.CallExpr); isCall {
+					if cf := p.Callee(fetch, call); cf != nil && cf.Name() == "processQueue" {
+						ok = true
+					}
+				}
+				return true
+			})
+		}
+		r.Check(ok, "R-C10.4", r.Key("R-C10.4", fetch, "exit", ""), pos, "the fetch loop runs before Fetch returns", "Fetch can return without running the fetch loop (e.g. for a limit of 0): loaders that rely on the fetcher to deliver the supplied entries (NewFromEntryHash keeps max(n,1)) then return fewer entries than min(max(n,k),size)")
+	})
+	// R-C10.5
+	fe := p.Func("", "", "fromEntry")
+	sfe := p.SSAFunc(fe)
+	lpe := NewLenProver(p, sfe)
+	srcPar := sfe.Params[2]
+	ntrim := 0
+	allInstrs(sfe, false, func(ins ssa.Instruction) {
+		call, ok := ins.(*ssa.Call)
+		if !ok {
+			return
+		}
+		cal := call.Call.StaticCallee()
+		if cal == nil || cal.Pkg == nil || cal.Pkg.Pkg.Path() != p.Mod || len(call.Call.Args) != 2 || !isIntType(call.Call.Args[1].Type()) {
+			return
+		}
+		if _, isSlice := call.Type().Underlying().(*types.Slice); !isSlice {
+			return
+		}
+		if ok2, _ := suffixOnly(p, cal, 0, 0); !ok2 {
+			return
+		}
+		// trim by -length (tail): length = -arg
+		ntrim++
+		keep := lpe.term(call.Call.Args[1]).scale(-1)
+		goal := lpe.lenTerm(srcPar).add(keep, -1) // len(source) - keep <= 0
+		okp, facts, failed := lpe.ProveAt(call.Block(), call, []lin{goal})
+		r.Check(okp, "R-C10.5", r.Key("R-C10.5", fe, "trim", ""), call.Pos(), "the number of entries kept is proved ≥ the number of supplied entries", "cannot show that fromEntry keeps at least as many entries as were supplied ("+failed+"): with fewer kept than supplied, putting the supplied entries back drops some of them (a head is lost)", facts...)
+	})
+	r.Floor("R-C10.5", "tail trims in fromEntry", ntrim, 1)
+	// R-C10.6
+	cnt := map[string]int{}
+	guardObligations(c, r, repoLockEngine(c), "R-C10.6", map[string]bool{"Fetcher": true}, cnt)
+	r.Floor("R-C10.6", "Fetcher guarded field accesses", cnt["Fetcher.tasksCache"]+cnt["Fetcher.maxClock"]+cnt["Fetcher.minClock"], 6)
+
 	r.List("fromEntry: result = Difference(sliced, sourceEntries) ++ entrySliceRange(...): length bound needs a summary of entry.Difference (loop over maps) — beyond the linear prover; not armed")
 
 	// R-C10.3
